@@ -289,11 +289,16 @@ func (s *c19Sched) settle() {
 	for spin := 0; ; spin++ {
 		s.drain()
 		busy := false
+		s.mu.Lock()
 		for _, t := range s.order {
+			if t.status == c19StNew && t.gid != 0 {
+				t.status = c19StRunning // just adopted: on its way to its first park
+			}
 			if t.status == c19StRunning || t.status == c19StBlocked {
 				busy = true
 			}
 		}
+		s.mu.Unlock()
 		if !busy && s.watchStray == "" {
 			return
 		}
@@ -302,6 +307,13 @@ func (s *c19Sched) settle() {
 			// nothing managed is running: a goroutine not yet known to the scheduler (a sink worker
 			// that has just been handed a task) may still be on its way to its first yield point
 			if s.drain() == 0 && !s.strayRunning(snap) {
+				if c19SchedDebug {
+					for gid, g := range snap {
+						if strings.Contains(g.stack, "startSinkWorkerPool") {
+							println("SETTLE-RETURN worker", gid, g.state, g.inYield)
+						}
+					}
+				}
 				return
 			}
 			if time.Now().After(deadline) {
@@ -362,18 +374,17 @@ func (s *c19Sched) strayRunning(snap map[int64]c19GState) bool {
 	s.mu.Lock()
 	defer s.mu.Unlock()
 	for gid, g := range snap {
-		if _, managed := s.byGid[gid]; managed {
-			continue
+		if t, managed := s.byGid[gid]; managed && t.status != c19StNew {
+			continue // its status is tracked by settle itself
 		}
 		if !strings.Contains(g.stack, s.watchStray) {
 			continue
 		}
-		switch g.state {
-		case "running", "runnable", "syscall":
+		// anything that is not verifiably parked in the runtime counts as running (a goroutine that
+		// waits for a runtime semaphore while this scheduler holds the world stopped shows as
+		// `semacquire`, a preempted one as `preempted`, ...)
+		if g.inYield || !c19BlockedState(g, false) {
 			return true
-		}
-		if g.inYield {
-			return true // about to be adopted
 		}
 	}
 	return false
